@@ -258,6 +258,9 @@ class Report:
     def finish(self):
         hit = {}
         viol = []
+        if isinstance(getattr(self, "coverage", None), dict) and self.coverage.get("samples") == []:
+            # an enumeration that stopped early (mass failure) may not have reached a sampling index: the first failing descriptors stand in
+            self.coverage["samples"] = [f["desc"][:300] for f in self.fails[:3]] or ["(no case reached a sampling index)"]
         for f in self.fails:
             k = next((k for k in self.known if k["match"].search(f["desc"] + " :: " + f["msg"]) and k["kind"].search(f["kind"])), None)
             if k:
